@@ -107,6 +107,17 @@ class _Enough(Exception):
     pass
 
 
+class CaseTimeout(BaseException):
+    """a single case exceeded the wall-clock guard: discarded and counted, never a violation"""
+
+
+CASE_TIMEOUT_S = int(os.environ.get("VERIF_CASE_TIMEOUT", "180"))
+
+
+def _alarm(_sig, _frm):
+    raise CaseTimeout()
+
+
 def hyp_run(body: Callable[[Any], None], strategy, n_distinct: int, seedv: int, key=None, col: "Collector" = None):
     """Run a Hypothesis generation phase deterministically until `n_distinct` distinct cases (by key, default the
     whole case) have been passed to body; body records failures itself. Hypothesis' generate phase spends most
@@ -139,7 +150,17 @@ def hyp_run(body: Callable[[Any], None], strategy, n_distinct: int, seedv: int, 
                 col.cls("hypothesis-duplicate")
             return
         seen.add(h)
-        body(x)
+        import signal
+
+        signal.signal(signal.SIGALRM, _alarm)
+        signal.setitimer(signal.ITIMER_REAL, CASE_TIMEOUT_S)
+        try:
+            body(x)
+        except CaseTimeout:
+            if col is not None:
+                col.cls("discard:case-timeout(%ds)" % CASE_TIMEOUT_S)
+        finally:
+            signal.setitimer(signal.ITIMER_REAL, 0)
         if len(seen) >= n_distinct:
             state["stop"] = True
             raise _Enough()
